@@ -4,6 +4,7 @@ import (
 	"crypto/sha1"
 	"encoding/json"
 	"fmt"
+	ogm "github.com/weedbox/pokertable/open_game_manager"
 	"os"
 	"strings"
 	"sync"
@@ -634,13 +635,6 @@ func runActorBots(c *ACase) {
 		for _, a := range actors {
 			a.GetTable().UpdateTableState(t)
 		}
-		if t.State.Status == pt.TableStateStatus_TableGameSettled {
-			for _, p := range t.State.PlayerStates {
-				if p.Bankroll > 0 {
-					go d.te.PlayerSettlementFinish(p.PlayerID)
-				}
-			}
-		}
 	}
 	for i := 0; i < c.N; i++ {
 		chips := int64(20 + r.Intn(300))
@@ -664,7 +658,24 @@ func runActorBots(c *ACase) {
 		if between && (t.State.GameCount >= c.Hands || alive < 2) {
 			break
 		}
-		time.Sleep(50 * time.Millisecond)
+		// the players signal that they have seen the settlement once the gate for the next hand stands (the gate keeps its
+		// participants in an unguarded map: signalling while the engine is still setting it up can crash the process)
+		if grp := ogm.VerifGroupStates(pt.VerifOpenGameManager(d.te)); t.State.Status == pt.TableStateStatus_TableGameStandby && len(grp) > 0 {
+			pendingSig := false
+			for _, ready := range grp {
+				if !ready {
+					pendingSig = true
+				}
+			}
+			if pendingSig {
+				for _, p := range t.State.PlayerStates {
+					if p.Bankroll > 0 && p.IsIn {
+						d.te.PlayerSettlementFinish(p.PlayerID)
+					}
+				}
+			}
+		}
+		time.Sleep(20 * time.Millisecond)
 	}
 	t := d.te.GetTable()
 	c.Opened = t.State.GameCount
